@@ -444,6 +444,26 @@ fn negation_like(p: &Pred) -> bool {
     }
 }
 
+/// an integer literal outside the range of the 64-bit integer column it is compared with
+fn wide_out_of_range_literal(t: &TableDef, p: &Pred) -> bool {
+    let out = |e: &Expr, l: &Cell| match e {
+        Expr::Col(c) => match (t.dt(c), l) {
+            (DataType::Int64, Cell::U(u)) => *u > i64::MAX as u64,
+            (DataType::UInt64, Cell::I(i)) => *i < 0,
+            _ => false,
+        },
+        _ => false,
+    };
+    match p {
+        Pred::Cmp(a, _, Expr::Lit(l)) => out(a, l),
+        Pred::In(e, ls) => ls.iter().any(|l| out(e, l)),
+        Pred::Between(e, lo, hi) => out(e, lo) || out(e, hi),
+        Pred::Not(q) | Pred::IsTrue(q) | Pred::IsFalse(q) => wide_out_of_range_literal(t, q),
+        Pred::And(a, b) | Pred::Or(a, b) => wide_out_of_range_literal(t, a) || wide_out_of_range_literal(t, b),
+        _ => false,
+    }
+}
+
 /// a literal with a sub-second part compared with the timestamp[s] column
 fn fractional_ts_literal(p: &Pred) -> bool {
     let frac = |c: &Cell| matches!(c, Cell::F(_));
@@ -534,6 +554,8 @@ async fn check_filter(ds: &Dataset, t: &TableDef, fl: &F2, knobs: &[Knobs], ta: 
                 && extra.iter().all(|r| row_get(&names, r, t.index_col).is_null());
             let key = if idx_neg {
                 "negation-over-indexed-nullable-column/index-returns-null-rows".to_string()
+            } else if wide_out_of_range_literal(t, &fl.model) {
+                "model/out-of-range-64-bit-integer-literal/compared-in-floating-point".to_string()
             } else if fractional_ts_literal(&fl.model) {
                 "timestamp-literal-coerced-to-coarser-unit-by-truncation".to_string()
             } else {
@@ -651,6 +673,24 @@ fn query_shape(c: &CaseB) -> String {
 }
 
 fn check_b(t: &TableDef, c: &CaseB, got: &Result<Vec<Row>, String>, ta: &mut Tally) {
+    let mut tmp = Tally { cov: Cov::new(), viol: vec![], rejected: BTreeMap::new() };
+    check_b_inner(t, c, got, &mut tmp, false);
+    let neg_on_index = c.filter.as_ref().map(|f| negation_like(&f.model) && f.model.columns().contains(&t.index_col.to_string())).unwrap_or(false);
+    if !tmp.viol.is_empty() && got.is_ok() && neg_on_index && c.knobs.use_scalar_index != Some(false) {
+        // is the deviation exactly "the negation over the index also returns the NULL rows"?
+        let mut alt = Tally { cov: Cov::new(), viol: vec![], rejected: BTreeMap::new() };
+        check_b_inner(t, c, got, &mut alt, true);
+        if alt.viol.is_empty() {
+            for v in tmp.viol.iter_mut() {
+                v.key = "negation-over-indexed-nullable-column/index-returns-null-rows".to_string();
+            }
+        }
+    }
+    ta.cov.merge(tmp.cov);
+    ta.viol.extend(tmp.viol);
+}
+
+fn check_b_inner(t: &TableDef, c: &CaseB, got: &Result<Vec<Row>, String>, ta: &mut Tally, null_rows_match: bool) {
     let names = t.tbl.col_names();
     let case = serde_json::to_value(c).unwrap();
     let desc = format!(
@@ -668,7 +708,7 @@ fn check_b(t: &TableDef, c: &CaseB, got: &Result<Vec<Row>, String>, ta: &mut Tal
     let mut matches: Vec<(Row, u64)> = t
         .model_rows()
         .into_iter()
-        .filter(|(r, _)| c.filter.as_ref().map(|f| f.model.eval(&getter(&names, r)) == Some(true)).unwrap_or(true))
+        .filter(|(r, _)| c.filter.as_ref().map(|f| f.model.eval(&getter(&names, r)) == Some(true) || (null_rows_match && row_get(&names, r, t.index_col).is_null())).unwrap_or(true))
         .collect();
     let ordered_scan = c.knobs.scan_in_order != Some(false);
     if let Some((col, asc, nf)) = &c.order {
